@@ -215,9 +215,9 @@ ADD5 = {
  "C05": " Round 5: SEQ-BLOCKEND, WR-READFROM.",
  "C13": " Round 5: SEQ-BLOCKEND, WR-READFROM.",
  "C14": " Round 5: GL-GLOBAL no longer skips methods named init.",
- "C16": " Round 5: EF-EOF over the LZMA2 reader, decoder dictionary window guards, WR-READFROM; TM-OPMARGIN.",
- "C01": " TM-OPMARGIN (opLenMargin covers the largest operation plus closing the range coder; found and fixed a defect, DESIGN 12.6).",
- "C08": " TM-OPMARGIN (opLenMargin covers the largest operation plus closing the range coder; found and fixed a defect, DESIGN 12.6).",
+ "C16": " Round 5: EF-EOF over the LZMA2 reader, decoder dictionary window guards, WR-READFROM; TM-OPMARGIN; WR-RAWCOPY.",
+ "C01": " TM-OPMARGIN (opLenMargin covers the largest operation plus closing the range coder; found and fixed a defect, DESIGN 12.6); WR-RAWCOPY (raw chunk only while the encoder dictionary holds it; defect fixed, DESIGN 12.7).",
+ "C08": " TM-OPMARGIN (opLenMargin covers the largest operation plus closing the range coder; found and fixed a defect, DESIGN 12.6); WR-RAWCOPY (raw chunk only while the encoder dictionary holds it; defect fixed, DESIGN 12.7).",
 }
 for pid, text in ADD5.items():
     ADD4[pid] = ADD4.get(pid, "") + text
